@@ -366,6 +366,12 @@ func c19_outcomeOf(o object.Object) string {
 	if o == nil {
 		return "other:<nil>"
 	}
+	if rx, ok := o.(*modRegexp.Regexp); ok { // a compiled pattern: identified by the source of its pattern
+		if re, ok := rx.Interface().(*regexp.Regexp); ok && re != nil {
+			return "val r" + c19_hx(re.String())
+		}
+		return "other:regexp-without-pattern"
+	}
 	v := c19_jvOfObj(o)
 	if v == nil {
 		return "other:" + string(o.Type())
@@ -2752,7 +2758,13 @@ func c19_runC19(e *Env) {
 		"in-memory file, 5% ill-typed values; contents related to one base value, encoded text for decoders) and 2-6 calls over it of the functions that take bytes-like arguments " +
 		"(codec registry, base64 module, gzip, json text, string()/byte_slice(), strings module, string / byte_slice methods, bytes module; 60% focused on one function, 65% on one hot object, " +
 		"also the same object in two parameters), directed shapes (every function x every kind x three uses), through the object API (every object re-examined after every call) and as one " +
-		"script; non-trivial when a buffer or file is used by more than one call or twice in one call"
+		"script; non-trivial when a buffer or file is used by more than one call or twice in one call. " +
+		"Regexp module: tuples (pattern, subject, replacement template, count): the pattern from a grammar (30% complete literals with escaped metacharacters, 6% literals under a flag, " +
+		"10% malformed, 6% the free-form pool, the rest structured: classes, capturing / non-capturing / named groups, alternation with empty branches, greedy / lazy / counted quantifiers, " +
+		"anchors, flags), the subject built from 0-4 strings sampled from the pattern's syntax tree between fillers (empty, Unicode, invalid UTF-8), the template from text and references " +
+		"($$, $0, $1, ${1}, ${name}, $name, missing groups, $1x, ${, a trailing $; 25% without $), the count in -2..4; every tuple goes through regexp.compile, regexp.match and the six " +
+		"methods of the compiled pattern (object API, every third through a script), 4% ill-typed, 3% wrong arity; each result is compared with Go's package regexp called directly and with " +
+		"the Lean glue model of the regenerated inventory; Go's template expansion and ReplaceAllString on a literal are compared with their Lean models; every regexp case is non-trivial"
 	// sessions run first (a minimal sequence makes the clearest replay) on an RNG of their own,
 	// so that the case streams of the other parts are what they were before sessions existed
 	saved := *e.Rng
@@ -2760,9 +2772,12 @@ func c19_runC19(e *Env) {
 	*e.Rng = saved
 	usesRng := NewRNG(e.Rng.Next() ^ 0xA26C19A26) // use sessions (c19args.go): likewise on their own stream, and first
 	*e.Rng = saved
+	rxRng := NewRNG(e.Rng.Next() ^ 0x5EC19E9C19) // the regexp module (c19regexp.go): likewise
+	*e.Rng = saved
 	c19Live.r, c19Live.ents = e.R, nil
 	c19ArgUses(e, usesRng)
 	c19Sessions(e, sessRng)
+	c19Regexp(e, rxRng)
 	c19Codecs(e)
 	c19Floats64(e)
 	c19JSON(e)
